@@ -140,6 +140,18 @@ def oracle(case, ctx):
     for op in case["ops"]:
         kind = op["op"]
         c = model["cutoff"]
+        if model.get("beyond_cutoff"):
+            # after an update_predict the forecaster remembers data later than its (restored)
+            # cutoff: only the cutoff / labelling clauses and further update_predict calls are
+            # followed from here on
+            if kind == "predict":
+                p = sut(f.predict, fh_arg())
+                discs += check_forecast(p, model, steps, desc, "predict_after_update_predict", None)
+                continue
+            if kind != "update_predict":
+                continue
+            op = dict(op, update_params=False)
+            ctx.label("second_update_predict")
         if kind == "refit":
             # fitting the same object again starts afresh, on all the data observed so far
             u = series_of(model)
@@ -238,7 +250,8 @@ def oracle(case, ctx):
             cc = sut(lambda: f.cutoff)
             if isinstance(cc, Raised) or int(cc) != c:
                 discs.append(D("cutoff_not_restored_after_update_predict", "%s: cutoff %r was %d" % (desc, cc, c)))
-            break  # terminal operation (the forecaster has seen y_future but keeps the old cutoff)
+            # the forecaster has seen y_future but keeps the old cutoff
+            model["beyond_cutoff"] = True
         if discs:
             break
     ctx.mark_nontrivial(n_updates >= 2 or overlap_seen or up_seen)
@@ -392,6 +405,15 @@ def cases(draw):
             ops.append({"op": "update_predict", "m": m, "cv": draw(st.sampled_from(["sliding", "expanding"])), "wl": wl,
                         "step": draw(st.integers(1, 3)), "sww": draw(st.booleans()),
                         "update_params": draw(st.sampled_from([True, False]))})
+            # ... optionally followed by a predict and / or a second update_predict
+            tail = draw(st.sampled_from(["", "", "p", "u", "pu", "up"]))
+            for ch in tail:
+                if ch == "p":
+                    ops.append({"op": "predict"})
+                else:
+                    wl2 = draw(st.integers(1, 3))
+                    ops.append({"op": "update_predict", "m": draw(st.integers(wl2 + steps[-1], wl2 + steps[-1] + 4)), "cv": "sliding", "wl": wl2,
+                                "step": draw(st.integers(1, 2)), "sww": draw(st.booleans()), "update_params": False})
             break
     if ops and ops[-1]["op"] != "predict" and ops[-1]["op"] != "update_predict":
         ops.append({"op": "predict"})
@@ -412,4 +434,25 @@ def _sel_fit_without_fh(case, disc):
     return case["fh_when"] == "predict" and "No `fh` has been set" in disc["detail"]
 
 
-SELECTORS = {"fit_without_fh_then_update": _sel_fit_without_fh}
+def _sel_members_keep_moved_cutoff(case, disc):
+    return pools.is_composite(case["spec"]) and "predict_after_update_predict" in disc["detail"]
+
+
+def _has_whole_series_seasonal_mean(spec):
+    if isinstance(spec, dict):
+        if spec.get("kind") == "naive" and spec.get("strategy") == "mean" and spec.get("wl") is None and (spec.get("sp") or 1) > 1:
+            return True
+        return any(_has_whole_series_seasonal_mean(v) for v in spec.values())
+    if isinstance(spec, list):
+        return any(_has_whole_series_seasonal_mean(v) for v in spec)
+    return False
+
+
+def _sel_seasonal_mean_window(case, disc):
+    refitting = any(o["op"] == "update_predict" and o.get("update_params") for o in case["ops"])
+    return refitting and _has_whole_series_seasonal_mean(case["spec"]) and "cannot reshape" in disc["detail"]
+
+
+SELECTORS = {"fit_without_fh_then_update": _sel_fit_without_fh,
+             "members_keep_moved_cutoff": _sel_members_keep_moved_cutoff,
+             "seasonal_mean_window_after_update_predict": _sel_seasonal_mean_window}
